@@ -65,6 +65,9 @@ func genC16(t *rapid.T) C16Case {
 		c.Other = rapid.IntRange(1, 2).Draw(t, "otherwhen")
 	}
 	nr := rapid.IntRange(1, 4).Draw(t, "rounds")
+	if c.F <= 5 && c.O <= 5 && rapid.IntRange(0, 11).Draw(t, "manyrounds") == 0 {
+		nr = rapid.IntRange(9, 24).Draw(t, "roundsmany") // one layer object used for a long time
+	}
 	for r := 0; r < nr; r++ {
 		var rd FCRound
 		if r == 0 && c.Init == 0 || rapid.IntRange(0, 2).Draw(t, "replaceW") > 0 {
@@ -79,6 +82,17 @@ func genC16(t *rapid.T) C16Case {
 			rd.Batch = 1
 		}
 		rd.X = prog.DrawValsMode(t, rd.Batch*c.F, 9+r, "std")
+		if c.F <= 5 && rapid.IntRange(0, 9).Draw(t, "mags") == 0 {
+			// tiny weights against huge inputs (and an exact zero weight): products far from 1
+			// in either factor, ordinary in value
+			rd.NewW = make([]float64, c.O)
+			for i := range rd.NewW {
+				rd.NewW[i] = rapid.SampledFrom([]float64{1e-250, -3e-250, 2.5e-245, 0, 1e-300}).Draw(t, "tinyw")
+			}
+			for i := range rd.X {
+				rd.X[i] *= 1e300
+			}
+		}
 		rd.XTracked = rapid.Bool().Draw(t, "xtracked")
 		rd.G = drawWeights(t, rd.Batch*c.O)
 		rd.Fan = drawFan(t)
@@ -397,6 +411,9 @@ func checkC16(c C16Case) *Failure {
 	if replaced >= 2 {
 		evid.Class("C16.parameters_replaced_twice_or_more")
 	}
+	if len(c.Rounds) >= 9 {
+		evid.Class("C16.nine_or_more_rounds_on_one_layer")
+	}
 	evid.Class(fmt.Sprintf("C16.init=%d", c.Init))
 	if c.O >= 2 && sawBatchN {
 		evid.NonTrivial(c)
@@ -434,6 +451,9 @@ type C17Case struct {
 	// Second optimizer with another learning rate, constructed before (1) or after (2) the
 	// checked one; it updates a tensor of its own right before every Update of the checked one
 	OtherOpt int `json:"other_opt,omitempty"`
+	// Repeat: afterwards the same optimizer updates one small tensor this many more times
+	// through one pointer variable (reset, new gradient k, Update), every step checked
+	Repeat int `json:"repeat,omitempty"`
 }
 
 func init() { register("C17/sgd", checkC17) }
@@ -485,6 +505,9 @@ func genC17(t *rapid.T) C17Case {
 	}
 	if rapid.IntRange(0, 2).Draw(t, "otheropt") == 0 {
 		c.OtherOpt = rapid.IntRange(1, 2).Draw(t, "otheroptwhen")
+	}
+	if rapid.IntRange(0, 7).Draw(t, "repeat") == 0 {
+		c.Repeat = rapid.IntRange(9, 40).Draw(t, "repeatn")
 	}
 	return c
 }
@@ -730,6 +753,61 @@ func checkC17(c C17Case) *Failure {
 			}
 		}
 		evid.Class(fmt.Sprintf("C17.second_update_kind=%d", c.Second))
+	}
+	if c.Repeat > 0 && c.Repeat <= 64 {
+		// a long life of one optimizer: the same pointer variable, a new gradient every step
+		// (elements of very different magnitudes in every third case); every tensor it replaced
+		// is kept and must still be what it was at the end
+		cur := []float64{1.5, -0.25, 3}
+		mag := []float64{1, 1, 1}
+		if c.Repeat%3 == 0 {
+			mag = []float64{1, 1e160, 1e-160}
+		}
+		var u tensor.Tensor = lib.MustNew([]int{3}, cur, true)
+		var olds []tensor.Tensor
+		var oldSnaps []lib.Snapshot
+		for it := 0; it < c.Repeat; it++ {
+			k := float64(it%5) - 1.5
+			gvec := []float64{k * mag[0], -k * mag[1], (k + 0.25) * mag[2]}
+			u.ResetGradContext(true)
+			r, err := u.Mul(lib.MustNew([]int{3}, gvec, false))
+			if err != nil {
+				return failf("repeat %d: Mul failed: %v", it, err)
+			}
+			if err := tensor.BackPropagate(r); err != nil {
+				return failf("repeat %d: BackPropagate failed: %v", it, err)
+			}
+			prevU := u
+			sn, err := lib.Snap(prevU)
+			if err != nil {
+				return failf("repeat %d: tensor unreadable: %v", it, err)
+			}
+			if err := opt.Update(&u); err != nil {
+				return failf("Update number %d by one optimizer failed: %v", it+2, err)
+			}
+			if u == prevU {
+				return failf("Update number %d by one optimizer did not replace the tensor", it+2)
+			}
+			olds, oldSnaps = append(olds, prevU), append(oldSnaps, sn)
+			us, uv, err := lib.Read(u)
+			if err != nil || len(us) != 1 || len(uv) != 3 {
+				return failf("Update number %d by one optimizer: result has shape %v (%v)", it+2, us, err)
+			}
+			for j := range uv {
+				want := cur[j] - lr*gvec[j]
+				if !lib.SameNum(uv[j], want) && math.Abs(uv[j]-want) > 1e-12*math.Max(math.Abs(cur[j]), math.Abs(lr*gvec[j])) {
+					return failf("Update number %d by one optimizer: [%d] = %v, w - lr*g = %v - %v*%v = %v", it+2, j, uv[j], cur[j], lr, gvec[j], want)
+				}
+				cur[j] = want // the reference trajectory is carried independently of the library's
+			}
+		}
+		for i, o := range olds {
+			now, err := lib.Snap(o)
+			if err != nil || !oldSnaps[i].Equal(now) {
+				return failf("after %d updates by one optimizer, the tensor it replaced at update %d (or that tensor's gradient) is no longer what it was (%v)", len(olds)+1, i+2, err)
+			}
+		}
+		evid.Class("C17.nine_or_more_updates_by_one_optimizer")
 	}
 	evid.Eval()
 	evid.Class(fmt.Sprintf("C17.rank=%d", len(ns)))
